@@ -4,6 +4,7 @@ import (
 	"fmt"
 	"math"
 	"math/big"
+	"os"
 
 	"github.com/tuneinsight/lattigo/v6/circuits/ckks/dft"
 	"github.com/tuneinsight/lattigo/v6/circuits/ckks/mod1"
@@ -231,10 +232,41 @@ type mod1Case struct {
 	dblAngle int
 	invDeg   int
 	deg      int
+	// ignoredDA: SinContinuous only. The literal's DoubleAngle is set to this value, which the documentation declares
+	// ignored for the sine ("DoubleAngle: ... ignored if Mod1Type = SinContinuous"): everything must be as with 0.
+	ignoredDA int
+}
+
+// calName is the calibration key: a field documented as ignored does not change it.
+func (m mod1Case) calName() string {
+	return fmt.Sprintf("mod1/N%d/t%d/K%d/r%d/da%d/inv%d/deg%d", m.logN, m.typ, m.K, m.ratio, m.dblAngle, m.invDeg, m.deg)
 }
 
 func (m mod1Case) name() string {
-	return fmt.Sprintf("mod1/N%d/t%d/K%d/r%d/da%d/inv%d/deg%d", m.logN, m.typ, m.K, m.ratio, m.dblAngle, m.invDeg, m.deg)
+	if m.ignoredDA != 0 {
+		return m.calName() + fmt.Sprintf("/literal-DoubleAngle=%d-ignored", m.ignoredDA)
+	}
+	return m.calName()
+}
+
+// mod1Fingerprint: every field of the instantiated mod1 parameters, polynomials coefficient by coefficient.
+func mod1Fingerprint(p mod1.Parameters) string {
+	poly := func(q *bignum.Polynomial) string {
+		if q == nil {
+			return "nil"
+		}
+		s := fmt.Sprintf("%+v[", q.MetaData)
+		for _, c := range q.Coeffs {
+			if c == nil {
+				s += "-,"
+			} else {
+				s += c[0].Text('g', 30) + "/" + c[1].Text('g', 30) + ","
+			}
+		}
+		return s + "]"
+	}
+	return fmt.Sprintf("LevelQ=%d LogDefaultScale=%d type=%v ratio=%d da=%d QDiff=%v Sqrt2Pi=%v K=%v poly=%s inv=%s", p.LevelQ, p.LogDefaultScale, p.Mod1Type, p.LogMessageRatio,
+		p.DoubleAngle, p.QDiff, p.Sqrt2Pi, p.K, poly(&p.Mod1Poly), poly(p.Mod1InvPoly))
 }
 
 // contDegree: degree at which the Chebyshev interpolant of cos/sin(2πx) on [-Kr,Kr] has converged well below the
@@ -260,13 +292,22 @@ func asinTaylor(y float64, d int) float64 {
 func mod1Scenario(m mod1Case) engine.Scenario {
 	name := m.name()
 	return engine.Scenario{Name: name, Bound: -1, Fn: func(c *engine.Chooser) {
-		if recordingSkipsID("mod1/"+name, name) {
+		if recordingSkipsID("mod1/"+name, name) || (m.ignoredDA != 0 && os.Getenv("VERIF_C18_CALIBRATE") != "") {
 			return
 		}
 		uni.Seed(c, name)
 		lit := mod1.ParametersLiteral{LogScale: 60, Mod1Type: m.typ, LogMessageRatio: m.ratio, K: m.K, Mod1Degree: m.deg,
 			DoubleAngle: m.dblAngle, Mod1InvDegree: m.invDeg}
 		depth := lit.Depth()
+		if m.ignoredDA != 0 {
+			// ignored means ignored: the announced depth first
+			lit.DoubleAngle = m.ignoredDA
+			if d := lit.Depth(); d != depth {
+				c.Fail("C18/mod1/ignored-DoubleAngle-changes-Depth", "%s: Depth()=%d with DoubleAngle=%d, %d with DoubleAngle=0 (SinContinuous ignores the field)", name, d, m.ignoredDA, depth)
+				return
+			}
+			c.Cover("mod1", "sine-ignored-double-angle")
+		}
 		// the library's own recipe (mod1_evaluator_test.go): 55-bit base prime, 60-bit primes for the circuit, one
 		// 53-bit prime on top for the normalisation by 1/(K·QDiff); scale 2^45
 		// One more 60-bit prime than the recipe at the bottom: the evaluator hands the result back at the input's scale
@@ -284,9 +325,26 @@ func mod1Scenario(m mod1Case) engine.Scenario {
 		}
 		mp, err := mod1.NewParametersFromLiteral(params, lit)
 		if err != nil {
+			if m.ignoredDA != 0 {
+				c.Fail("C18/mod1/ignored-DoubleAngle-refused", "%s: %v", name, err)
+				return
+			}
 			c.Cover("rejected", "mod1-literal")
 			c.Note("%s rejected: %v", name, err)
 			return
+		}
+		if m.ignoredDA != 0 {
+			// ... then the instantiated parameters, field by field, against the ones built with DoubleAngle = 0
+			lit0 := lit
+			lit0.DoubleAngle = 0
+			mp0, err := mod1.NewParametersFromLiteral(params, lit0)
+			if err != nil {
+				panic("harness: " + err.Error())
+			}
+			if a, b := mod1Fingerprint(mp), mod1Fingerprint(mp0); a != b {
+				c.Fail("C18/mod1/ignored-DoubleAngle-changes-the-parameters", "%s: parameters differ from the ones built with DoubleAngle=0: %s", name, firstDiffStr(b, a))
+				// value and levels are judged all the same below
+			}
 		}
 		kgen := rlwe.NewKeyGenerator(params)
 		sk := kgen.GenSecretKeyNew()
@@ -382,7 +440,7 @@ func mod1Scenario(m mod1Case) engine.Scenario {
 		if lim := math.Pow(2*math.Pi, 2) / (6 * Q * Q) * 1.01; worstIdeal > lim+1e-12 {
 			panic(fmt.Sprintf("harness: model deviates from x mod 1 by %g > %g", worstIdeal, lim))
 		}
-		judgePrecision(c, "mod1", name, worst)
+		judgePrecision(c, "mod1", m.calName(), worst)
 		c.Cover("mod1type", fmt.Sprint(m.typ))
 		c.Cover("mod1da", fmt.Sprint(m.dblAngle))
 		c.Cover("mod1inv", fmt.Sprint(m.invDeg))
@@ -409,20 +467,46 @@ func mod1Scenarios(tier string) []engine.Scenario {
 			for _, ratio := range ratios {
 				for _, inv := range invs {
 					// SinContinuous ignores DoubleAngle (documented)
-					scs = append(scs, mod1Scenario(mod1Case{logN, mod1.SinContinuous, K, ratio, 0, inv, contDegree(float64(K))}))
+					scs = append(scs, mod1Scenario(mod1Case{logN, mod1.SinContinuous, K, ratio, 0, inv, contDegree(float64(K)), 0}))
+					// ... which is judged: the literal's DoubleAngle 1..3 with the sine, straight at the mod1 entry point
+					// (the bootstrapping constructor refuses the combination): same parameters, same depth, same values
+					for da := 1; da <= 3; da++ {
+						scs = append(scs, mod1Scenario(mod1Case{logN, mod1.SinContinuous, K, ratio, 0, inv, contDegree(float64(K)), da}))
+					}
 					for da := 0; da <= 3; da++ {
 						kr := float64(K) / math.Exp2(float64(da))
-						scs = append(scs, mod1Scenario(mod1Case{logN, mod1.CosContinuous, K, ratio, da, inv, contDegree(kr)}))
+						scs = append(scs, mod1Scenario(mod1Case{logN, mod1.CosContinuous, K, ratio, da, inv, contDegree(kr), 0}))
 						// CosDiscrete: minimum degree 2(K-1) (documented); the library default 30 belongs to K=16, da=3
 						deg := utils.Max(2*(K-1), 30)
 						if da < 3 {
 							deg = utils.Max(deg, contDegree(kr))
 						}
-						scs = append(scs, mod1Scenario(mod1Case{logN, mod1.CosDiscrete, K, ratio, da, inv, deg}))
+						scs = append(scs, mod1Scenario(mod1Case{logN, mod1.CosDiscrete, K, ratio, da, inv, deg, 0}))
 					}
 				}
 			}
 		}
 	}
 	return scs
+}
+
+// firstDiffStr shows the neighbourhood of the first difference of two fingerprints.
+func firstDiffStr(a, b string) string {
+	i := 0
+	for i < len(a) && i < len(b) && a[i] == b[i] {
+		i++
+	}
+	lo, cut := i-40, func(s string, lo, hi int) string {
+		if lo < 0 {
+			lo = 0
+		}
+		if hi > len(s) {
+			hi = len(s)
+		}
+		if lo > hi {
+			return ""
+		}
+		return s[lo:hi]
+	}
+	return fmt.Sprintf("…%s… / …%s…", cut(a, lo, i+40), cut(b, lo, i+40))
 }
